@@ -106,7 +106,16 @@ def main():
         cmd = _re.split(r"\s+\(", cmd)[0].strip()  # drop trailing parenthetical remarks
         if "-count" not in cmd:
             cmd = cmd.replace("go test", "go test -count=1", 1)
-        cmd = cmd.split("|")[0].strip()  # drop output filters: the exit status must be go test's
+        # drop output filters (the exit status must be go test's): cut at the first pipe outside quotes
+        q = None
+        for i, ch in enumerate(cmd):
+            if q:
+                q = None if ch == q else q
+            elif ch in "'\"":
+                q = ch
+            elif ch == "|":
+                cmd = cmd[:i].strip()
+                break
         cmd = _re.sub(r"\s+2>&1\s*$", "", cmd)
         rc_with, out_with, _ = run(cmd, wt, timeout=900)
         meta["demo_with_patch_fails"] = rc_with != 0 and ("FAIL" in out_with)
